@@ -1140,6 +1140,10 @@ def run_C07(rng, tier, deep):
             st["branches"].get("receptor offset (cells)=%s" % ("node" if fr == (0.0, 0.0) else "half-cell tie" if 0.5 in fr and set(fr) <= {0.0, 0.5} else "generic"), 0) + 1
         run_oracle(st, o_mirror, c)
         c = random_case(rng)
+        if c["analytic"] and rng.random() < 0.6:
+            # closed form on a column between "decays to 1e-4" and "decays beyond underflow" over its height, Kx != Ky: whatever the code
+            # decides from an ESTIMATE of the decay must treat the two horizontal axes alike
+            make_tall(c, rng, st, lo=0.9, hi=2.2, aniso=True)
         run_oracle(st, o_transpose, c)
         c = random_case(rng)
         if c["halo"] is not None and c["_kinds"]["halo"] == "comm":
@@ -1280,6 +1284,26 @@ def o_levels_interface(case):
     return None
 
 
+def make_tall(c, rng, st, lo=2.3, hi=3.5, aniso=False):
+    """a column that is TALL against the horizontal cell (100 m mast over a metre-scale grid): the shortest retained waves decay by
+    exp(-200) .. exp(-3000) over the column and underflow to exactly zero aloft - legitimate for the closed form (analytic mode), which has
+    no shooting growth to bound"""
+    if aniso:
+        # strongly anisotropic horizontal diffusivities (a factor 3 .. 30 between along-x and along-y; user-supplied profiles)
+        u_, v_, Kx_, Ky_, Kz_ = c["profiles"]
+        f_ = float(10.0 ** rng.uniform(0.5, 1.5))
+        c["profiles"] = (u_, v_, Kx_ * f_, Ky_, Kz_) if rng.random() < 0.5 else (u_, v_, Kx_, Ky_ * f_, Kz_)
+    ny_, nx_ = c["q"].shape
+    h_ = float(c["z"][-1] - c["z"][0])
+    d_ = float(np.pi * h_ / (10.0 ** rng.uniform(lo, hi)))
+    c["domain"] = (nx_ * d_, ny_ * d_ * float(rng.uniform(0.8, 1.25)))
+    c["meas_pt"] = (float(int(rng.integers(nx_)) * d_), 0.0)
+    if c["halo"] is not None:
+        c["halo"] = float(c["halo"] != 0.0) * 1.5 * d_
+    st["branches"]["column=tall against the cell (decay beyond underflow)"] = st["branches"].get("column=tall against the cell (decay beyond underflow)", 0) + 1
+    return c
+
+
 def run_C10(rng, tier, deep):
     st = new_stats()
     cases = []
@@ -1310,17 +1334,7 @@ def run_C10(rng, tier, deep):
         if c["analytic"]:
             c["profiles"] = uniform_profiles(rng, nz)
             if rng.random() < 0.35:
-                # a column that is TALL against the horizontal cell (100 m mast over a metre-scale grid): the shortest retained waves decay by
-                # exp(-200) .. exp(-3000) over the column and underflow to exactly zero aloft - legitimate for the closed form, which has no
-                # shooting growth to bound
-                ny_, nx_ = c["q"].shape
-                h_ = float(c["z"][-1] - c["z"][0])
-                d_ = float(np.pi * h_ / (10.0 ** rng.uniform(2.3, 3.5)))
-                c["domain"] = (nx_ * d_, ny_ * d_ * float(rng.uniform(0.8, 1.25)))
-                c["meas_pt"] = (float(int(rng.integers(nx_)) * d_), 0.0)
-                if c["halo"] is not None:
-                    c["halo"] = float(c["halo"] != 0.0) * 1.5 * d_
-                st["branches"]["column=tall against the cell (decay beyond underflow)"] = st["branches"].get("column=tall against the cell (decay beyond underflow)", 0) + 1
+                make_tall(c, rng, st)
         forms = ["pyint", "npint64", "npint32", "zerod", "intp"] if kind == "scalar" else ["list", "array", "array32", "nplist", "arrayu8"]
         c["par"] = dict(form=str(rng.choice(forms)), full=bool(rng.random() < 0.3), cont=str(rng.choice(["tuple", "list", "array"])))
         st["branches"]["levels=%s" % kind] = st["branches"].get("levels=%s" % kind, 0) + 1
@@ -1679,7 +1693,7 @@ def conv_par_geom(rng, n0):
     """a geometric grid from a millimetre-scale roughness length: the layers next to the surface are thinner than 1e-6 of the
     column at the finer resolutions although each carries its share of the vertical resistance"""
     par = conv_par(rng)
-    par.update(grid="geom", z0=float(rng.choice([1e-3, 2e-3, 5e-3])), H=float(rng.uniform(10, 25)), n0=int(n0), gamma=1.0,
+    par.update(grid="geom", z0=float(rng.choice([1e-3, 2e-3, 5e-3, 2e-4, 5e-5])), H=float(rng.uniform(10, 25)), n0=int(n0), gamma=1.0,
                diff=str(rng.choice(["surface", "surface", "most"])), veer=0.0)
     return par
 
@@ -1710,8 +1724,11 @@ def run_C01(rng, tier, deep):
         run_oracle(st, o_convergence, dict(par))
     for _ in range(budget(tier, deep, 6, 60)):
         run_oracle(st, o_convergence, conv_par(rng))
-    for k in range(budget(tier, deep, 1, 4)):
-        run_oracle(st, o_convergence, conv_par_geom(rng, 32 if not deep and tier == "quick" else [64, 128][k % 2]))
+    for k in range(budget(tier, deep, 1, 6)):
+        par = conv_par_geom(rng, 32 if not deep and tier == "quick" else [64, 128][k % 2])
+        if deep or tier == "thorough":
+            par["z0"] = [2e-4, 1e-3, 5e-5, 5e-3, 2e-3, 2e-4][k % 6]        # every decade of roughness length, the smooth ones first
+        run_oracle(st, o_convergence, par)
     if deep or tier == "thorough":
         # size thresholds: one production-size spectrum (9 000 - 17 000 components), exact solution for a sample of ~50 of them
         par = conv_par(rng)
